@@ -147,8 +147,7 @@ def check(run):
     # ---- "never shadowed" at run time: in every set that compiles, every reference spelling of every declaration reaches its own handler
     ok_sets = [st for st, (compiles, err) in zip(sets, got) if compiles and ref_set_compiles(st['decls'], st['attrs']) and all(ref_self_ok(d) for d in st['decls'])]
     # (a declaration written in lower case only has an empty short form: no header spells it, such "spellings" are not sent)
-    if run.tier != 'thorough':
-        ok_sets = ok_sets[:400]
+    ok_sets = ok_sets[:400 if run.tier != 'thorough' else 1500]
     spell = [[[':'.join(pth) + ('?' if d.endswith('?') else '') for pth in sorted(set(raw_paths(d))) if all(pth)] for d in st['decls']] for st in ok_sets]
     try:
         fails = compile_probe.run_sets(ok_sets, spell)
